@@ -69,6 +69,12 @@ func ConvertConnectToProtoError(err *connect.Error) *conformancev1.Error {
 	}
 	details := make([]*anypb.Any, 0, len(err.Details()))
 	for _, detail := range err.Details() {
+		if detail == nil {
+			// A JSON null in the "details" array of a Connect error on the
+			// wire is decoded to a nil detail: there is nothing to convert.
+			// (The reference client reports the malformed array as feedback.)
+			continue
+		}
 		details = append(details, &anypb.Any{
 			// Connect Go strips the prefix from the type when calling Type()
 			// but anypb.MarshalFrom adds the prefix explicitly. Since Protoyaml
